@@ -4,15 +4,30 @@ import Inkayaku.Proofs.BoardCongr
 import Inkayaku.Proofs.GenOK
 import Inkayaku.Proofs.MoveBits
 import Inkayaku.Props.C03
+import Inkayaku.Proofs.GenSpecKeys
+import Inkayaku.Proofs.Attack
+import Inkayaku.Proofs.Check
 /-!
-# SAN: the parser reads back the printer, the check suffix, disambiguation, round trip (helper lemmas for C14)
+# SAN: the parser reads back the printer, the check mark, disambiguation, round trip (helper lemmas for C14)
 
-1. `sanCaptures_render`, `sanCaptures_inv`: the hand translation of `PGN_REGEX` (`San.sanCaptures`, leftmost-first with
-   greedy-then-backtrack optional groups) accepts exactly the texts of `Spec.SanGrammar.renderSan`, with the parts of
-   the shape as captures.
-2. `uciToSan_ok`: the text `uci_to_pgn` produces is `renderSan (sanShapeOf b m)`; its suffix is `sanSuffix (make b m)`.
-3. `disamb_standard`, `disamb_unique`: the four-way case split of `uci_to_pgn` is the standard rule.
-4. `sanToMove_sound`, round trip.
+Everything is stated on the models of `Model/San.lean` (`sanCaptures` = hand translation of `PGN_REGEX`, `sanToMove` =
+`pgn_to_bb`, `uciToSan` = `uci_to_pgn`) and on the printer of `Spec/SanGrammar.lean`.
+
+1. `sanCaptures_render`, `sanCaptures_inv` (`sanCaptures_some_iff`): the regex translation (leftmost-first, optional
+   groups greedy-then-backtrack) accepts exactly the texts of `renderSan`, with the parts of the shape as captures;
+   `sanCaptures_none`, `sanCaptures_nil`, `sanCaptures_illegal_char`, `sanCaptures_short`.
+3. `modelDisamb` (the four-way case split of `uci_to_pgn`), `disamb_standard`, `disamb_unique`, `disamb_pawn`.
+2. `uciToSan_eq`, `sanText`, `sanText_toList` (the text is `renderSan (sanShapeOf …)`), `sanText_split` (body ++ check
+   mark), `sanBodyText_noMark`, `uciToSan_suffix` (last character `#` / `+` / neither).
+5. `consistent`, `sanToMove_eq`, `sanToMove_some_iff`, `sanToMove_none_iff`, `sanToMove_sound`,
+   `consistent_piece` / `consistent_pawn` / `consistent_castle`.
+4. `SanGenFacts` (what the round trip uses of the generator), `roundtrip_castle` / `roundtrip_pawn` /
+   `roundtrip_piece`, `san_roundtrip_of_facts`; `Origin`, `origin_of_mem`, `IsCapture`, `IsPush`, `pawn_cases`,
+   `sanGenFacts_of_wf` (the facts hold in every legal position); `san_roundtrip`, `uciToSan_legal_ok`,
+   `uciToSan_standard`.
+
+The generator part uses the list forms of the generators (`Proofs/GenSpecList.lean`, `GenSpecKeys.lean`: `genPseudo_eq`,
+`mkL_false`, `mkM_f`, `pawnStepL_white/black`) and the leaper-table geometry of `Proofs/Attack.lean`.
 -/
 namespace Inkayaku.SanProofs
 open Inkayaku.Board Inkayaku.San Inkayaku.Spec.SanGrammar Inkayaku.Util
@@ -1666,5 +1681,589 @@ theorem san_roundtrip_of_facts {b : Board} (hwf : WF.wf b = true) (hnd : UciNodu
     by_cases hpawn : m.f.pieceMoved = PAWN
     · exact roundtrip_pawn hnd hF hm hck hpawn _ _ (sanSuffix_ok _) hs
     · exact roundtrip_piece hnd hF hm hck hpawn _ (sanSuffix_ok _) hs
+
+section GeneratorFacts
+open Inkayaku.GenSpec Inkayaku.GenOK Inkayaku.Gen
+
+/-! ## the generator facts, from `wf b` -/
+
+/-- where a generated move comes from, with the arguments `make_move` was called with -/
+inductive Origin (b : Board) (m : Move) : Prop where
+  | piece (P src tgt : Nat) (hP : P = QUEEN ∨ P = BISHOP ∨ P = ROOK ∨ P = KNIGHT)
+      (hf : m.f = mkF b src tgt P false false 0 0)
+  | king (src tgt : Nat) (hs : src < 64) (ht : tgt < 64) (hk : testU (leaperAttacks kingTable src) tgt = true)
+      (hf : m.f = mkF b src tgt KING false false 0 0)
+  | capture (src tgt promo : Nat) (ep : Bool) (hs : src < 64) (ht : tgt < 64)
+      (hsrc : testU b.active.pawns src = true)
+      (hatt : testU (pawnAttSet b b.active.full b.passive.full src) tgt = true)
+      (hpromo : (lastRank tgt = true ∧ 2 ≤ promo ∧ promo ≤ 5 ∧ ep = false) ∨
+        (lastRank tgt = false ∧ promo = 0 ∧ ep = (tgt == b.ep)))
+      (hf : m.f = mkF b src tgt PAWN false ep promo 0)
+  | push (src tgt promo epOpp : Nat) (hsrc : testU b.active.pawns src = true) (h8 : 8 ≤ src) (h56 : src < 56)
+      (ht : tgt < 64)
+      (hempty : testU (b.active.full ||| b.passive.full) tgt = false)
+      (hstep : tgt = (if b.whiteTurn then src - 8 else src + 8) ∨
+        (tgt = (if b.whiteTurn then src - 16 else src + 16) ∧ (if b.whiteTurn then 48 ≤ src else src < 16) ∧
+          testU (b.active.full ||| b.passive.full) (if b.whiteTurn then src - 8 else src + 8) = false))
+      (hpromo : (lastRank tgt = true ∧ 2 ≤ promo ∧ promo ≤ 5) ∨ (lastRank tgt = false ∧ promo = 0))
+      (hf : m.f = mkF b src tgt PAWN false false promo epOpp)
+  | castle (tgt : Nat) (ht : tgt + 2 = (if b.whiteTurn then 60 else 4) ∨ tgt = (if b.whiteTurn then 60 else 4) + 2)
+      (hf : m.f = mkF b (if b.whiteTurn then 60 else 4) tgt KING true false 0 0)
+
+theorem mem_mkL {b : Board} {src tgt piece promo epOpp : Nat} {castle ep : Bool} {m : Move}
+    (h : ArgsFit b src tgt piece promo epOpp) (hm : m ∈ mkL b false src tgt piece castle ep promo epOpp) :
+    m.f = mkF b src tgt piece castle ep promo epOpp := by
+  rw [mkL_false, List.mem_singleton] at hm
+  subst hm
+  exact mkM_f castle ep h
+
+theorem mem_attacksL {b : Board} (hb : Basic b) {src piece : Nat} {att : UInt64} {m : Move} (hs : src < 64)
+    (hp : piece < 8) (hm : m ∈ attacksL b false src att piece) :
+    ∃ tgt, tgt < 64 ∧ testU att tgt = true ∧ m.f = mkF b src tgt piece false false 0 0 := by
+  unfold attacksL at hm
+  obtain ⟨tgt, ht, hm⟩ := List.mem_flatMap.mp hm
+  have htu := (Bits.mem_bitsAsc _ _).mp ht
+  exact ⟨tgt, Bits.testU_lt htu, htu, mem_mkL ⟨hb, hs, Bits.testU_lt htu, hp, by decide, by decide⟩ hm⟩
+
+theorem mem_slidingL {b : Board} (hb : Basic b) {occ act full : UInt64} {rook : Bool} {piece : Nat} {m : Move}
+    (hp : piece < 8) (hm : m ∈ slidingL b false occ act full rook piece) :
+    ∃ src tgt, m.f = mkF b src tgt piece false false 0 0 := by
+  unfold slidingL at hm
+  obtain ⟨src, hs, hm⟩ := List.mem_flatMap.mp hm
+  obtain ⟨tgt, _, _, hf⟩ := mem_attacksL hb (Bits.testU_lt ((Bits.mem_bitsAsc _ _).mp hs)) hp hm
+  exact ⟨src, tgt, hf⟩
+
+theorem mem_singleL {b : Board} (hb : Basic b) {occ act : UInt64} {tbl : List Nat} {piece : Nat} {m : Move}
+    (hp : piece < 8) (hm : m ∈ singleL b false occ act tbl piece) :
+    ∃ src tgt, src < 64 ∧ tgt < 64 ∧ testU (leaperAttacks tbl src) tgt = true ∧
+      m.f = mkF b src tgt piece false false 0 0 := by
+  unfold singleL at hm
+  obtain ⟨src, hs, hm⟩ := List.mem_flatMap.mp hm
+  have hs64 := Bits.testU_lt ((Bits.mem_bitsAsc _ _).mp hs)
+  obtain ⟨tgt, ht, hatt, hf⟩ := mem_attacksL hb hs64 hp hm
+  rw [Bits.testU_and, Bool.and_eq_true] at hatt
+  exact ⟨src, tgt, hs64, ht, hatt.1, hf⟩
+
+theorem mem_promotionsL {b : Board} (hb : Basic b) {src tgt : Nat} {m : Move} (hs : src < 64) (ht : tgt < 64)
+    (hm : m ∈ promotionsL b src tgt) :
+    ∃ p, 2 ≤ p ∧ p ≤ 5 ∧ m.f = mkF b src tgt PAWN false false p 0 := by
+  unfold promotionsL at hm
+  obtain ⟨p, hp, hm⟩ := List.mem_flatMap.mp hm
+  have hp' : p = 5 ∨ p = 4 ∨ p = 3 ∨ p = 2 := by simpa [QUEEN, ROOK, BISHOP, KNIGHT] using hp
+  exact ⟨p, by omega, by omega, mem_mkL ⟨hb, hs, ht, by decide, by omega, by decide⟩ hm⟩
+
+
+theorem origin_pawnAttacksL {b : Board} (hb : Basic b) {m : Move}
+    (hm : m ∈ pawnAttacksL b b.active.pawns b.active.full b.passive.full) : Origin b m := by
+  unfold pawnAttacksL at hm
+  obtain ⟨src, hs, hm⟩ := List.mem_flatMap.mp hm
+  obtain ⟨tgt, ht, hm⟩ := List.mem_flatMap.mp hm
+  have hsu := (Bits.mem_bitsAsc _ _).mp hs
+  have htu := (Bits.mem_bitsAsc _ _).mp ht
+  have hs64 := Bits.testU_lt hsu
+  have ht64 := Bits.testU_lt htu
+  unfold pawnAttackL at hm
+  rw [lastRank_iff tgt ht64] at hm
+  split at hm
+  · next hl =>
+    obtain ⟨p, h2, h5, hf⟩ := mem_promotionsL hb hs64 ht64 hm
+    exact .capture src tgt p false hs64 ht64 hsu htu (Or.inl ⟨hl, h2, h5, rfl⟩) hf
+  · next hl =>
+    have hf := mem_mkL ⟨hb, hs64, ht64, by decide, by decide, by decide⟩ hm
+    exact .capture src tgt 0 (tgt == b.ep) hs64 ht64 hsu htu (Or.inr ⟨by simpa using hl, rfl, rfl⟩) hf
+
+theorem origin_pawnMovesL {b : Board} (hw : WFacts b) {m : Move}
+    (hm : m ∈ pawnMovesL b false b.active.pawns (b.active.full ||| b.passive.full)) : Origin b m := by
+  have hb := hw.basic
+  unfold pawnMovesL at hm
+  obtain ⟨src, hs, hm⟩ := List.mem_flatMap.mp hm
+  have hsu := (Bits.mem_bitsAsc _ _).mp hs
+  obtain ⟨h8, h56⟩ := pawn_mid' hw hs
+  -- the same argument for both colours: `t1` one step ahead, `t2` two steps ahead
+  have key : ∀ t1 t2 : Nat, t1 < 64 → ∀ rank2 : Prop, [Decidable rank2] → (rank2 → t2 < 64) →
+      t1 = (if b.whiteTurn = true then src - 8 else src + 8) →
+      t2 = (if b.whiteTurn = true then src - 16 else src + 16) →
+      (rank2 ↔ (if b.whiteTurn = true then 48 ≤ src else src < 16)) →
+      (rank2 → lastRank t2 = false) →
+      m ∈ (if testU (b.active.full ||| b.passive.full) t1 then []
+        else if lastRank t1 then promotionsL b src t1
+        else mkL b false src t1 PAWN false false NO_PIECE 0 ++
+          (if decide rank2 && !testU (b.active.full ||| b.passive.full) t2
+            then mkL b false src t2 PAWN false false NO_PIECE t1 else [])) → Origin b m := by
+    intro t1 t2 ht1 rank2 _ ht2 e1 e2 hr hl2 hm
+    by_cases hfree : testU (b.active.full ||| b.passive.full) t1 = true
+    · rw [if_pos hfree] at hm; cases hm
+    · rw [if_neg hfree] at hm
+      have hfree' : testU (b.active.full ||| b.passive.full) t1 = false := by simpa using hfree
+      by_cases hl : lastRank t1 = true
+      · rw [if_pos hl] at hm
+        obtain ⟨p, h2, h5, hf⟩ := mem_promotionsL hb (by omega) ht1 hm
+        exact .push src t1 p 0 hsu h8 h56 ht1 hfree' (Or.inl e1) (Or.inl ⟨hl, h2, h5⟩) hf
+      · rw [if_neg hl] at hm
+        have hl' : lastRank t1 = false := by simpa using hl
+        rcases List.mem_append.mp hm with hm | hm
+        · have hf := mem_mkL ⟨hb, by omega, ht1, by decide, by decide, by decide⟩ hm
+          exact .push src t1 0 0 hsu h8 h56 ht1 hfree' (Or.inl e1) (Or.inr ⟨hl', rfl⟩) hf
+        · split at hm
+          · next hd =>
+            simp only [Bool.and_eq_true, Bool.not_eq_true', decide_eq_true_eq] at hd
+            have hf := mem_mkL ⟨hb, by omega, ht2 hd.1, by decide, by decide, ht1⟩ hm
+            exact .push src t2 0 t1 hsu h8 h56 (ht2 hd.1) hd.2 (Or.inr ⟨e2, hr.mp hd.1, e1 ▸ hfree'⟩)
+              (Or.inr ⟨hl2 hd.1, rfl⟩) hf
+          · cases hm
+  cases hwt : b.whiteTurn
+  · rw [pawnStepL_black hwt false _ src h8 h56] at hm
+    exact key (src + 8) (src + 16) (by omega) (src < 16) (fun h => by omega) (by simp [hwt]) (by simp [hwt])
+      (by simp [hwt]) (fun h => by unfold lastRank; simp; omega) hm
+  · rw [pawnStepL_white hwt false _ src h8 h56] at hm
+    exact key (src - 8) (src - 16) (by omega) (48 ≤ src) (fun h => by omega) (by simp [hwt]) (by simp [hwt])
+      (by simp [hwt]) (fun h => by unfold lastRank; simp; omega) hm
+
+theorem origin_castleL {b : Board} (hb : Basic b) {m : Move}
+    (hm : m ∈ castleL b (b.active.full ||| b.passive.full)) : Origin b m := by
+  have fit : ∀ s t, s < 64 → t < 64 → ArgsFit b s t KING NO_PIECE 0 :=
+    fun s t hs ht => ⟨hb, hs, ht, by decide, by decide, by decide⟩
+  unfold castleL at hm
+  cases hw : b.whiteTurn
+  · simp only [hw, Bool.false_eq_true, if_false] at hm
+    rcases List.mem_append.mp hm with hm | hm
+    · split at hm
+      · have hf := mem_mkL (fit E8 C8 (by decide) (by decide)) hm
+        exact .castle C8 (by simp [hw, C8]) (by simpa [hw, E8, NO_PIECE] using hf)
+      · cases hm
+    · split at hm
+      · have hf := mem_mkL (fit E8 G8 (by decide) (by decide)) hm
+        exact .castle G8 (by simp [hw, G8]) (by simpa [hw, E8, NO_PIECE] using hf)
+      · cases hm
+  · simp only [hw, if_true] at hm
+    rcases List.mem_append.mp hm with hm | hm
+    · split at hm
+      · have hf := mem_mkL (fit E1 C1 (by decide) (by decide)) hm
+        exact .castle C1 (by simp [hw, C1]) (by simpa [hw, E1, NO_PIECE] using hf)
+      · cases hm
+    · split at hm
+      · have hf := mem_mkL (fit E1 G1 (by decide) (by decide)) hm
+        exact .castle G1 (by simp [hw, G1]) (by simpa [hw, E1, NO_PIECE] using hf)
+      · cases hm
+
+/-- every generated move has an origin -/
+theorem origin_of_mem {b : Board} (hw : WFacts b) {m : Move} (hm : m ∈ genPseudo b) : Origin b m := by
+  have hb := hw.basic
+  rw [genPseudo_eq] at hm
+  simp only [List.mem_append] at hm
+  rcases hm with (((((((hm | hm) | hm) | hm) | hm) | hm) | hm) | hm) | hm
+  · obtain ⟨s, t, hf⟩ := mem_slidingL hb (by decide) hm; exact .piece QUEEN s t (Or.inl rfl) hf
+  · obtain ⟨s, t, hf⟩ := mem_slidingL hb (by decide) hm; exact .piece QUEEN s t (Or.inl rfl) hf
+  · obtain ⟨s, t, hf⟩ := mem_slidingL hb (by decide) hm; exact .piece BISHOP s t (Or.inr (Or.inl rfl)) hf
+  · obtain ⟨s, t, hf⟩ := mem_slidingL hb (by decide) hm; exact .piece ROOK s t (Or.inr (Or.inr (Or.inl rfl))) hf
+  · obtain ⟨s, t, _, _, _, hf⟩ := mem_singleL hb (by decide) hm
+    exact .piece KNIGHT s t (Or.inr (Or.inr (Or.inr rfl))) hf
+  · obtain ⟨s, t, hs, ht, hk, hf⟩ := mem_singleL hb (by decide) hm
+    exact .king s t hs ht hk hf
+  · exact origin_pawnAttacksL hb hm
+  · exact origin_pawnMovesL hw hm
+  · exact origin_castleL hb hm
+
+
+/-! ### what the origins say about pawn moves -/
+
+/-- a pawn capture (en passant included): something is captured, the pawn changes file by one and advances one rank,
+and the target holds an enemy piece or is the en-passant square -/
+def IsCapture (b : Board) (m : Move) : Prop :=
+  m.f.pieceAttacked ≠ 0 ∧ m.f.source % 8 ≠ m.f.target % 8 ∧
+  (if b.whiteTurn then m.f.source / 8 = m.f.target / 8 + 1 else m.f.source / 8 + 1 = m.f.target / 8) ∧
+  (testU b.passive.full m.f.target = true ∨ (m.f.target = b.ep ∧ b.ep ≠ 0))
+
+/-- a pawn push: nothing is captured, the target is empty, one step ahead or two steps from the start rank over an
+empty square -/
+def IsPush (b : Board) (m : Move) : Prop :=
+  m.f.pieceAttacked = 0 ∧ testU (b.active.full ||| b.passive.full) m.f.target = false ∧
+  testU b.active.pawns m.f.source = true ∧ 8 ≤ m.f.source ∧ m.f.source < 56 ∧
+  (m.f.target = (if b.whiteTurn then m.f.source - 8 else m.f.source + 8) ∨
+    (m.f.target = (if b.whiteTurn then m.f.source - 16 else m.f.source + 16) ∧
+      (if b.whiteTurn then 48 ≤ m.f.source else m.f.source < 16) ∧
+      testU (b.active.full ||| b.passive.full) (if b.whiteTurn then m.f.source - 8 else m.f.source + 8) = false))
+
+theorem lastRank_rank18 : ∀ t, t < 64 → testU rank18 t = lastRank t := by decide
+
+theorem full_of_pawns {s : Side} {t : Nat} (h : testU s.pawns t = true) : testU s.full t = true := by
+  simp only [Side.full, Bits.testU_or, h, Bool.or_true]
+
+theorem pawnGeom_rows {w : Bool} {s t : Nat} (h : Geometry.pawnGeom w s t = true) :
+    s % 8 ≠ t % 8 ∧ (if w then s / 8 = t / 8 + 1 else s / 8 + 1 = t / 8) := by
+  simp only [Geometry.pawnGeom, Spec.fileOf, Spec.rowOf, Bool.and_eq_true, bne_iff_ne, ne_eq, beq_iff_eq] at h
+  obtain ⟨_, h1, h2⟩ := h
+  cases w <;> simp only [Bool.false_eq_true, if_false, if_true] at h2 ⊢ <;> omega
+
+theorem testU_not' (x : UInt64) (t : Nat) (ht : t < 64) : testU (~~~x) t = !testU x t := by
+  unfold testU
+  rw [UInt64.toNat_not, show 2 ^ 64 - 1 - x.toNat = 2 ^ 64 - (x.toNat + 1) by omega]
+  exact (Nat.testBit_two_pow_sub_succ x.toNat_lt t).trans (by simp [ht])
+
+theorem mkF_attacked (b : Board) (src tgt piece : Nat) (castle ep : Bool) (promo epOpp : Nat) :
+    (mkF b src tgt piece castle ep promo epOpp).pieceAttacked = b.passive.pieceAt (attackSq b tgt ep) := rfl
+
+theorem capture_isCapture {b : Board} (hw : WFacts b) {m : Move} {src tgt promo : Nat} {ep : Bool}
+    (hs : src < 64) (ht : tgt < 64)
+    (hatt : testU (pawnAttSet b b.active.full b.passive.full src) tgt = true)
+    (hpromo : (lastRank tgt = true ∧ 2 ≤ promo ∧ promo ≤ 5 ∧ ep = false) ∨
+      (lastRank tgt = false ∧ promo = 0 ∧ ep = (tgt == b.ep)))
+    (hf : m.f = mkF b src tgt PAWN false ep promo 0) : IsCapture b m := by
+  have hep64 := hw.basic.ep
+  unfold pawnAttSet at hatt
+  simp only [Bits.testU_and, Bits.testU_or, Bool.and_eq_true, Bool.or_eq_true, testU_not' _ _ ht,
+    Bits.testU_bitU _ _ hep64, lastRank_rank18 tgt ht, decide_eq_true_eq, Bool.not_eq_true'] at hatt
+  obtain ⟨⟨htbl, hocc⟩, _⟩ := hatt
+  -- geometry of the capture
+  have hgeo : src % 8 ≠ tgt % 8 ∧ (if b.whiteTurn then src / 8 = tgt / 8 + 1 else src / 8 + 1 = tgt / 8) := by
+    cases hwt : b.whiteTurn
+    · rw [hwt] at htbl
+      simp only [Bool.false_eq_true, if_false] at htbl
+      rw [Attack.leaperAttacks_eq Geometry.blackPawn_tableOK src tgt hs ht] at htbl
+      exact pawnGeom_rows htbl
+    · rw [hwt] at htbl
+      simp only [if_true] at htbl
+      rw [Attack.leaperAttacks_eq Geometry.whitePawn_tableOK src tgt hs ht] at htbl
+      exact pawnGeom_rows htbl
+  have hsrc : m.f.source = src := by rw [hf]; rfl
+  have htgt : m.f.target = tgt := by rw [hf]; rfl
+  have hpa : m.f.pieceAttacked = b.passive.pieceAt (attackSq b tgt ep) := by rw [hf]; rfl
+  rw [IsCapture, hsrc, htgt, hpa]
+  refine ⟨?_, hgeo.1, hgeo.2, ?_⟩
+  · -- something is captured
+    by_cases hte : tgt = b.ep ∧ lastRank tgt = false
+    · obtain ⟨hte, hl⟩ := hte
+      have hep : ep = true := by
+        rcases hpromo with ⟨hl', _⟩ | ⟨_, _, he⟩
+        · rw [hl] at hl'; cases hl'
+        · rw [he]; simpa using hte
+      have hne : b.ep ≠ 0 := by
+        intro h0; rw [← hte] at h0; subst h0; revert hl; decide
+      have hok := hw.epOK hne
+      have hturn := hw.basic.turn
+      subst hep
+      unfold attackSq
+      cases hwt : b.whiteTurn
+      · have ht1 : b.turn ≠ 0 := by simpa [Board.whiteTurn] using hwt
+        rw [if_neg ht1] at hok
+        simp only [Bool.false_eq_true, if_false, if_true]
+        have hp : testU b.passive.full (tgt - 8) = true := by
+          apply full_of_pawns
+          simp only [Board.passive, hwt, Bool.false_eq_true, if_false]
+          rw [hte]; exact hok.2
+        intro h0
+        rw [Attack.pieceAt_zero _ _ (by omega)] at h0
+        rw [hp] at h0; cases h0
+      · have ht0 : b.turn = 0 := by simpa [Board.whiteTurn] using hwt
+        rw [if_pos ht0] at hok
+        simp only [if_true]
+        have hp : testU b.passive.full (tgt + 8) = true := by
+          apply full_of_pawns
+          simp only [Board.passive, hwt, if_true]
+          rw [hte]; exact hok.2
+        intro h0
+        rw [Attack.pieceAt_zero _ _ (by omega)] at h0
+        rw [hp] at h0; cases h0
+    · have hfull : testU b.passive.full tgt = true := by
+        rcases hocc with h | ⟨h1, h2⟩
+        · exact h
+        · exact absurd ⟨h1.symm, h2⟩ hte
+      have hep : ep = false := by
+        rcases hpromo with ⟨_, _, _, he⟩ | ⟨hl, _, he⟩
+        · exact he
+        · rw [he]
+          cases hbe : (tgt == b.ep) with
+          | false => rfl
+          | true => exact absurd ⟨by simpa using hbe, hl⟩ hte
+      subst hep
+      have : attackSq b tgt false = tgt := by unfold attackSq; split <;> simp
+      rw [this]
+      intro h0
+      rw [Attack.pieceAt_zero _ _ ht] at h0
+      rw [hfull] at h0; cases h0
+  · rcases hocc with h | ⟨h1, h2⟩
+    · exact Or.inl h
+    · refine Or.inr ⟨h1.symm, ?_⟩
+      intro h0; rw [← h1] at h2; rw [h0] at h2; revert h2; decide
+
+theorem push_isPush {b : Board} {m : Move} {src tgt promo epOpp : Nat}
+    (hsrc : testU b.active.pawns src = true) (h8 : 8 ≤ src) (h56 : src < 56) (ht : tgt < 64)
+    (hempty : testU (b.active.full ||| b.passive.full) tgt = false)
+    (hstep : tgt = (if b.whiteTurn then src - 8 else src + 8) ∨
+      (tgt = (if b.whiteTurn then src - 16 else src + 16) ∧ (if b.whiteTurn then 48 ≤ src else src < 16) ∧
+        testU (b.active.full ||| b.passive.full) (if b.whiteTurn then src - 8 else src + 8) = false))
+    (hf : m.f = mkF b src tgt PAWN false false promo epOpp) : IsPush b m := by
+  have hs : m.f.source = src := by rw [hf]; rfl
+  have htg : m.f.target = tgt := by rw [hf]; rfl
+  have hpa : m.f.pieceAttacked = b.passive.pieceAt (attackSq b tgt false) := by rw [hf]; rfl
+  rw [IsPush, hs, htg, hpa]
+  refine ⟨?_, hempty, hsrc, h8, h56, hstep⟩
+  have : attackSq b tgt false = tgt := by unfold attackSq; split <;> simp
+  rw [this, Attack.pieceAt_zero _ _ ht]
+  rw [Bits.testU_or, Bool.or_eq_false_iff] at hempty
+  exact hempty.2
+
+/-- a generated pawn move is a capture or a push -/
+theorem pawn_cases {b : Board} (hw : WFacts b) {m : Move} (hm : m ∈ genPseudo b) (hp : m.f.pieceMoved = PAWN) :
+    IsCapture b m ∨ IsPush b m := by
+  cases origin_of_mem hw hm with
+  | piece P s t hP hf =>
+    rw [hf] at hp
+    have : P = PAWN := hp
+    rcases hP with rfl | rfl | rfl | rfl <;> cases this
+  | king s t _ _ _ hf => rw [hf] at hp; cases hp
+  | capture src tgt promo ep hs ht hsrc hatt hpromo hf => exact Or.inl (capture_isCapture hw hs ht hatt hpromo hf)
+  | push src tgt promo epOpp hsrc h8 h56 ht hempty hstep hpromo hf =>
+    exact Or.inr (push_isPush hsrc h8 h56 ht hempty hstep hf)
+  | castle t _ hf => rw [hf] at hp; cases hp
+
+
+theorem kingGeom_files {s t : Nat} (h : Geometry.kingGeom s t = true) : s % 8 ≤ t % 8 + 1 ∧ t % 8 ≤ s % 8 + 1 := by
+  simp only [Geometry.kingGeom, Spec.fileOf, Spec.rowOf, Bool.and_eq_true] at h
+  have := of_decide_eq_true h.2.1
+  omega
+
+theorem excl_pawns {b : Board} (hd : Attack.Disjoint b) (t : Nat) :
+    ¬ (testU b.white.pawns t = true ∧ testU b.black.pawns t = true) := by
+  have := hd.pairwise t
+  simp only [Attack.sideWords, List.cons_append, List.nil_append, List.pairwise_cons] at this
+  exact this.1 b.black.pawns (by simp)
+
+theorem active_passive_pawns {b : Board} (hd : Attack.Disjoint b) (t : Nat) :
+    ¬ (testU b.active.pawns t = true ∧ testU b.passive.pawns t = true) := by
+  unfold Board.active Board.passive
+  cases b.whiteTurn
+  · simp only [Bool.false_eq_true, if_false]; exact fun h => excl_pawns hd t ⟨h.2, h.1⟩
+  · simp only [if_true]; exact excl_pawns hd t
+
+theorem full_or_of_active_pawns {b : Board} {t : Nat} (h : testU b.active.pawns t = true) :
+    testU (b.active.full ||| b.passive.full) t = true := by
+  rw [Bits.testU_or, full_of_pawns h]; rfl
+
+/-- two pushes to the same square start from the same square -/
+theorem push_push_source {b : Board} {x m : Move} (hx : IsPush b x) (hm : IsPush b m)
+    (ht : x.f.target = m.f.target) : x.f.source = m.f.source := by
+  obtain ⟨_, _, xs, x8, x56, xstep⟩ := hx
+  obtain ⟨_, _, ms, m8, m56, mstep⟩ := hm
+  have hxo := full_or_of_active_pawns xs
+  have hmo := full_or_of_active_pawns ms
+  rw [ht] at xstep
+  cases hw : b.whiteTurn <;> simp only [hw, Bool.false_eq_true, if_false, if_true] at xstep mstep
+  · rcases xstep with x1 | ⟨x2, _, xe⟩ <;> rcases mstep with m1 | ⟨m2, _, me⟩
+    · omega
+    · have : m.f.source + 8 = x.f.source := by omega
+      rw [this, hxo] at me; cases me
+    · have : x.f.source + 8 = m.f.source := by omega
+      rw [this, hmo] at xe; cases xe
+    · omega
+  · rcases xstep with x1 | ⟨x2, _, xe⟩ <;> rcases mstep with m1 | ⟨m2, _, me⟩
+    · omega
+    · have : m.f.source - 8 = x.f.source := by omega
+      rw [this, hxo] at me; cases me
+    · have : x.f.source - 8 = m.f.source := by omega
+      rw [this, hmo] at xe; cases xe
+    · omega
+
+theorem push_file {b : Board} {m : Move} (hm : IsPush b m) : m.f.source % 8 = m.f.target % 8 := by
+  obtain ⟨_, _, _, m8, m56, mstep⟩ := hm
+  cases hw : b.whiteTurn <;> simp only [hw, Bool.false_eq_true, if_false, if_true] at mstep
+  · rcases mstep with m1 | ⟨m2, _, _⟩ <;> omega
+  · rcases mstep with m1 | ⟨m2, h48, _⟩ <;> omega
+
+/-- **the generator facts hold in every legal position** -/
+theorem sanGenFacts_of_wf {b : Board} (h : WF.wf b = true) : SanGenFacts b := by
+  have hw := wf_facts h
+  have hd : Attack.Disjoint b := (Check.struct_of_wf h).1.disjoint
+  refine ⟨?_, ?_, ?_, ?_, ?_, ?_, ?_, ?_, ?_⟩
+  · -- piece_range
+    intro m hm
+    cases origin_of_mem hw hm with
+    | piece P s t hP hf => rw [hf]; show 1 ≤ P ∧ P ≤ 6; rcases hP with rfl | rfl | rfl | rfl <;> decide
+    | king s t _ _ _ hf => rw [hf]; show 1 ≤ KING ∧ KING ≤ 6; decide
+    | capture _ _ _ _ _ _ _ _ _ hf => rw [hf]; show 1 ≤ PAWN ∧ PAWN ≤ 6; decide
+    | push _ _ _ _ _ _ _ _ _ _ _ hf => rw [hf]; show 1 ≤ PAWN ∧ PAWN ≤ 6; decide
+    | castle _ _ hf => rw [hf]; show 1 ≤ KING ∧ KING ≤ 6; decide
+  · -- attacked_le
+    intro m hm
+    cases origin_of_mem hw hm with
+    | piece P s t hP hf => rw [hf]; exact pieceAtMask_le _ _
+    | king s t _ _ _ hf => rw [hf]; exact pieceAtMask_le _ _
+    | capture _ _ _ _ _ _ _ _ _ hf => rw [hf]; exact pieceAtMask_le _ _
+    | push _ _ _ _ _ _ _ _ _ _ _ hf => rw [hf]; exact pieceAtMask_le _ _
+    | castle _ _ hf => rw [hf]; exact pieceAtMask_le _ _
+  · -- castle_shape
+    intro m hm hc
+    cases origin_of_mem hw hm with
+    | piece P s t hP hf => rw [hf] at hc; cases hc
+    | king s t _ _ _ hf => rw [hf] at hc; cases hc
+    | capture _ _ _ _ _ _ _ _ _ hf => rw [hf] at hc; cases hc
+    | push _ _ _ _ _ _ _ _ _ _ _ hf => rw [hf] at hc; cases hc
+    | castle t ht hf =>
+      rw [hf]
+      refine ⟨rfl, rfl, ?_⟩
+      show t = (if b.whiteTurn = true then 60 else 4) + 2 ∨ t + 2 = (if b.whiteTurn = true then 60 else 4)
+      exact ht.symm
+  · -- king_step
+    intro m hm hc hk
+    cases origin_of_mem hw hm with
+    | piece P s t hP hf =>
+      rw [hf] at hk
+      have : P = KING := hk
+      rcases hP with rfl | rfl | rfl | rfl <;> cases this
+    | king s t hs ht hkt hf =>
+      rw [Attack.leaperAttacks_eq Geometry.king_tableOK s t hs ht] at hkt
+      have := kingGeom_files hkt
+      rw [hf]
+      show ¬ (s % 8 = 4 ∧ (t % 8 = 2 ∨ t % 8 = 6))
+      omega
+    | capture _ _ _ _ _ _ _ _ _ hf => rw [hf] at hk; cases hk
+    | push _ _ _ _ _ _ _ _ _ _ _ hf => rw [hf] at hk; cases hk
+    | castle _ _ hf => rw [hf] at hc; cases hc
+  · -- promo_piece
+    intro m hm hp
+    cases origin_of_mem hw hm with
+    | piece P s t hP hf => rw [hf]; rfl
+    | king s t _ _ _ hf => rw [hf]; rfl
+    | capture _ _ _ _ _ _ _ _ _ hf => rw [hf] at hp; exact absurd rfl hp
+    | push _ _ _ _ _ _ _ _ _ _ _ hf => rw [hf] at hp; exact absurd rfl hp
+    | castle _ _ hf => rw [hf]; rfl
+  · -- promo_pawn
+    intro m hm hp
+    cases origin_of_mem hw hm with
+    | piece P s t hP hf =>
+      rw [hf] at hp
+      have : P = PAWN := hp
+      rcases hP with rfl | rfl | rfl | rfl <;> cases this
+    | king s t _ _ _ hf => rw [hf] at hp; cases hp
+    | capture s t promo ep _ ht _ _ hpromo hf =>
+      rw [hf]
+      show (promo = 0 ∧ 8 ≤ t ∧ t < 56) ∨ (2 ≤ promo ∧ promo ≤ 5 ∧ (t < 8 ∨ 56 ≤ t))
+      simp only [lastRank, Bool.or_eq_true, decide_eq_true_eq, Bool.or_eq_false_iff, decide_eq_false_iff_not] at hpromo
+      omega
+    | push s t promo _ _ _ _ ht _ _ hpromo hf =>
+      rw [hf]
+      show (promo = 0 ∧ 8 ≤ t ∧ t < 56) ∨ (2 ≤ promo ∧ promo ≤ 5 ∧ (t < 8 ∨ 56 ≤ t))
+      simp only [lastRank, Bool.or_eq_true, decide_eq_true_eq, Bool.or_eq_false_iff, decide_eq_false_iff_not] at hpromo
+      omega
+    | castle _ _ hf => rw [hf] at hp; cases hp
+  · -- pawn_push_file
+    intro m hm hp hpa
+    rcases pawn_cases hw hm hp with hc | hpush
+    · exact absurd hpa hc.1
+    · exact push_file hpush
+  · -- pawn_push_only
+    intro x hx m hm xp mp ht hpa
+    rcases pawn_cases hw hm mp with hc | mpush
+    · exact absurd hpa hc.1
+    · rcases pawn_cases hw hx xp with xc | xpush
+      · exfalso
+        obtain ⟨_, mempty, ms, m8, m56, mstep⟩ := mpush
+        obtain ⟨_, _, _, xocc⟩ := xc
+        rw [ht] at xocc
+        rcases xocc with hfull | ⟨hte, hne⟩
+        · rw [Bits.testU_or, hfull, Bool.or_true] at mempty; cases mempty
+        · -- a push onto the en-passant square would start from the square of the pawn that just moved
+          have hok := hw.epOK hne
+          cases hwt : b.whiteTurn
+          · have ht1 : b.turn ≠ 0 := by simpa [Board.whiteTurn] using hwt
+            rw [if_neg ht1] at hok
+            simp only [hwt, Bool.false_eq_true, if_false] at mstep
+            have hsrc : m.f.source = b.ep - 8 := by
+              rcases mstep with m1 | ⟨m2, h16, _⟩ <;> omega
+            refine active_passive_pawns hd (b.ep - 8) ⟨by rw [← hsrc]; exact ms, ?_⟩
+            simp only [Board.passive, hwt, Bool.false_eq_true, if_false]
+            exact hok.2
+          · have ht0 : b.turn = 0 := by simpa [Board.whiteTurn] using hwt
+            rw [if_pos ht0] at hok
+            simp only [hwt, if_true] at mstep
+            have hsrc : m.f.source = b.ep + 8 := by
+              rcases mstep with m1 | ⟨m2, h48, _⟩ <;> omega
+            refine active_passive_pawns hd (b.ep + 8) ⟨by rw [← hsrc]; exact ms, ?_⟩
+            simp only [Board.passive, hwt, if_true]
+            exact hok.2
+      · exact xpush.1
+  · -- pawn_same_file
+    intro x hx m hm xp mp ht hfile
+    rcases pawn_cases hw hx xp with xc | xpush <;> rcases pawn_cases hw hm mp with mc | mpush
+    · obtain ⟨_, _, xrow, _⟩ := xc
+      obtain ⟨_, _, mrow, _⟩ := mc
+      rw [ht] at xrow
+      cases hwt : b.whiteTurn <;> simp only [hwt, Bool.false_eq_true, if_false, if_true] at xrow mrow <;> omega
+    · exact absurd (by rw [hfile, push_file mpush, ht]) xc.2.1
+    · exact absurd (by rw [← hfile, push_file xpush, ht]) mc.2.1
+    · exact push_push_source xpush mpush ht
+
+
+end GeneratorFacts
+
+
+/-! ## the final statements -/
+
+/-- `uci_to_pgn` accepts the UCI text of every legal move -/
+theorem uciToSan_legal_ok {b : Board} (hnd : UciNodup b) {m : Move} (hm : m ∈ genLegal b) :
+    ∃ s, (uciToSan b m.uci).1 = .ok s := by
+  have hmp := mem_genPseudo_of_legal hm
+  have hleg := legal_of_mem_genLegal hm
+  rw [uciToSan_eq, rustTrim_uci]
+  cases hfind : (genPseudo b).find? (fun x => x.uci == m.uci) with
+  | none =>
+    exfalso
+    have := List.find?_eq_none.mp hfind m hmp
+    simp at this
+  | some m0 =>
+    have hm0 : m0 ∈ genPseudo b := List.mem_of_find?_eq_some hfind
+    have hu : m0.uci = m.uci := by simpa using List.find?_some hfind
+    have : m0 = m := eq_of_nodup_map Move.uci hnd hm0 hmp hu
+    subst this
+    have hv : isValid (make b m0) = true := hleg
+    simp only [hv, Bool.not_true, Bool.false_eq_true, if_false]
+    exact ⟨_, rfl⟩
+
+/-- **round trip**: in a legal position the text written for a legal move is read back as exactly that move -/
+theorem san_roundtrip {b : Board} (hwf : WF.wf b = true) (hnd : UciNodup b) {m : Move} (hm : m ∈ genLegal b)
+    {s : String} (h : (uciToSan b m.uci).1 = .ok s) : sanToMove b s = some m :=
+  san_roundtrip_of_facts hwf hnd (sanGenFacts_of_wf hwf) hm h
+
+/-- the shape written for a legal move -/
+def shapeOfMove (b : Board) (m : Move) : SanShape :=
+  ⟨sanBodyOf (candSources b (genPseudo b) m.f) m.f, sanSuffix (make b m), []⟩
+
+/-- **the text written for a legal move is a standard SAN shape** -/
+theorem uciToSan_standard {b : Board} (hwf : WF.wf b = true) (hnd : UciNodup b) {m : Move} (hm : m ∈ genLegal b)
+    {s : String} (h : (uciToSan b m.uci).1 = .ok s) :
+    s.toList = renderSan (shapeOfMove b m) ∧ (shapeOfMove b m).standard = true := by
+  have hF := sanGenFacts_of_wf hwf
+  have hmp := mem_genPseudo_of_legal hm
+  refine ⟨uciToSan_shape hwf hnd hF hmp h, ?_⟩
+  unfold shapeOfMove SanShape.standard SanShape.wf
+  simp only [sanSuffix_ok, List.all_nil, Bool.and_true, List.isEmpty_nil]
+  cases hck : castleKind m.f with
+  | some long => simp only [sanBodyOf, hck, SanBody.wf, SanBody.standard, Bool.and_self]
+  | none =>
+    by_cases hpawn : m.f.pieceMoved = PAWN
+    · have hpp := hF.promo_pawn m hmp hpawn
+      have hpr : optOk isPromoLetter (promoOf m.f) = true := by
+        cases hq : promoOf m.f with
+        | none => rfl
+        | some q =>
+          rcases hpp with ⟨h0, _⟩ | ⟨h2, h5, _⟩
+          · rw [promoOf_zero h0] at hq; cases hq
+          · exact (promoOf_some hq h2 h5).2
+      simp only [sanBodyOf, hck, hpawn, beq_self_eq_true, if_true, SanBody.wf, SanBody.standard, optOk_none,
+        fileChar_isFile, rankChar_isRank (target_lt m), hpr, Option.isNone_none, Bool.true_and, Bool.and_true]
+      cases capturesOf m.f <;> simp [optOk, fileChar_isFile]
+    · have hrange := hF.piece_range m hmp
+      have h26 : 2 ≤ m.f.pieceMoved ∧ m.f.pieceMoved ≤ 6 := by
+        have : m.f.pieceMoved ≠ 1 := hpawn
+        omega
+      obtain ⟨pc, hpc, _, hpok⟩ := letterOf_piece h26.1 h26.2
+      have hpr0 := hF.promo_piece m hmp hpawn
+      have hne : (m.f.pieceMoved == PAWN) = false := by simpa using hpawn
+      simp only [sanBodyOf, hck, hne, Bool.false_eq_true, if_false, hpc, promoOf_zero hpr0, SanBody.wf,
+        SanBody.standard, optOk_some, optOk_none, hpok, fileChar_isFile, rankChar_isRank (target_lt m),
+        Option.isNone_none, Bool.true_and, Bool.and_true]
+      generalize modelDisamb m.f.source (candSources b (genPseudo b) m.f) false = d
+      cases d <;> simp [Disamb.fileOf, Disamb.rankOf, optOk, fileChar_isFile, rankChar_isRank (source_lt m)]
+
 
 end Inkayaku.SanProofs
